@@ -6,8 +6,8 @@ import (
 	"os"
 	"strconv"
 
+	"verif/checks/c12"
 	"verif/engine/core"
-
 )
 
 func main() {
@@ -35,6 +35,8 @@ func main() {
 		core.WorkerMain(os.Args[2], *tier, *seed, *hb)
 	case "replay":
 		os.Exit(core.ReplayMain(os.Args[2]))
+	case "c12-racemon":
+		os.Exit(c12.RaceMonMain())
 	default:
 		fmt.Fprintln(os.Stderr, "unknown command")
 		os.Exit(2)
